@@ -117,7 +117,11 @@ pub fn run(ctx: &mut Ctx) {
             // a truncated copy (incomplete last pair) and a copy with trailing garbage
             if !wire.is_empty() { let cut = rng.usize_below(wire.len()); ex(&mut log, &mut im, &format!("nv.all {}", hexd(&wire[..cut]))); oracle_bytes(&mut or, &wire[..cut], wire.len() <= 300); }
         }
-        for p in pairs.iter().take(2) { if p.0.len() + p.1.len() < 2000 { ex(&mut log, &mut im, &format!("nv.write vec {} {}", hexd(&p.0), hexd(&p.1))); } }
+        for p in pairs.iter().take(2) { if p.0.len() + p.1.len() < 2000 {
+            let whole = ex(&mut log, &mut im, &format!("nv.write vec {} {}", hexd(&p.0), hexd(&p.1)));
+            // the same pair through writers that accept 1 / a few bytes per write call: same count, same bytes
+            for k in [1usize, 2 + rng.usize_below(6)] { let o = ex(&mut log, &mut im, &format!("nv.write drip{k} {} {}", hexd(&p.0), hexd(&p.1))); if o != whole { or.fail(format!("nv::write through a writer accepting {k} byte(s) per call gives `{}`, into a Vec `{}`", &o[..o.len().min(80)], &whole[..whole.len().min(80)]), log.replay_block(), format!("C16:drip:{k}")); } }
+        } }
         or.eval(&wire, !pairs.is_empty());
         or.count(&format!("pairs={}", pairs.len()));
         if i < 2 { or.sample(format!("list of {} pairs, wire {} bytes: {}…", pairs.len(), wire.len(), hexd(&wire[..wire.len().min(24)]))); }
